@@ -284,8 +284,9 @@ def dump_world(reg, solvers):
         # register constraints the frontend created itself (simplifier output, expansion constraints)
         cons = ",".join(str(reg.con(c)) for c in s.constraints)
         toadd = ",".join(str(reg.con(c)) for c in s._to_add)
-        models = sorted(",".join("%d:%d" % (reg.var_index[k], int(v)) for k, v in sorted(
-            m.model.items(), key=lambda kv: reg.var_index[kv[0]])) for m in getattr(s, "_models", ()))
+        # a key that is not a variable of the universe (e.g. a tracking literal) is shown as variable 999
+        models = sorted(",".join("%d:%d" % (reg.var_index.get(k, 999), int(v)) for k, v in sorted(
+            m.model.items(), key=lambda kv: reg.var_index.get(kv[0], 999))) for m in getattr(s, "_models", ()))
         core = getattr(s, "_cached_unsat_core", None)
         if core is None:
             core_s = "-"
@@ -306,7 +307,7 @@ def dump_world(reg, solvers):
         parts.append("fe%d{cons=[%s];wo=[%s];vars=[%s];fin=%d;solver=%s;toadd=[%s];hashes=[%s];simp=%d;sat=%s;core=%s;models=[%s];"
                      "evalx=[%s];maxx=[%s];minx=[%s];maxsx=[%s];minsx=[%s]}" % (
                          i, cons, _ids_sorted(reg, s.constraints_wo_annotations, reg.con_id),
-                         ",".join(str(v) for v in sorted(reg.var_index[v] for v in s.variables)),
+                         ",".join(str(v) for v in sorted(reg.var_index.get(v, 999) for v in s.variables)),
                          1 if s._finalized else 0, letter_of(zs), toadd,
                          _ids_sorted(reg, getattr(s, "_constraint_hashes", ()), reg.con_id),
                          1 if getattr(s, "_simplified", True) else 0, sat, core_s, "|".join(models),
